@@ -6,6 +6,7 @@ import (
 	"sync"
 	"sync/atomic"
 	"testing/synctest"
+	"time"
 )
 
 // Sched is the token-passing scheduler. Tasks (goroutines started with Go, and
@@ -18,6 +19,7 @@ type Sched struct {
 	mu       sync.Mutex
 	parked   []*waiter
 	live     int
+	sleepers int
 	wake     chan struct{}
 	draining bool
 	Native   bool // pass-through (race audit): no parking, real scheduling
@@ -115,6 +117,44 @@ func (s *Sched) Yield(task, label string) {
 	<-w.ch
 }
 
+// Sleep blocks the calling task for d of simulated time (or until ctx is
+// done) and then re-enters the scheduler, so that goroutines woken at the same
+// fake instant are serialised again. While at least one task sleeps, "let
+// simulated time pass" is one of the scheduler's choices.
+func (s *Sched) Sleep(ctx context.Context, task, label string, d time.Duration) error {
+	if d <= 0 {
+		return nil
+	}
+	if s == nil || s.Native {
+		time.Sleep(d)
+		return nil
+	}
+	s.mu.Lock()
+	s.sleepers++
+	s.mu.Unlock()
+	tm := time.NewTimer(d)
+	var err error
+	var done <-chan struct{}
+	if ctx != nil {
+		done = ctx.Done()
+	}
+	select {
+	case <-tm.C:
+	case <-done:
+		err = ctx.Err()
+		tm.Stop()
+	}
+	s.mu.Lock()
+	s.sleepers--
+	s.mu.Unlock()
+	if err != nil {
+		s.Yield(task, label+"/ctxdone")
+	} else {
+		s.Yield(task, label+"/woke")
+	}
+	return err
+}
+
 // Drain releases every parked goroutine and turns further yields into no-ops
 // (used after a violation, at the step cap and at the end of a run).
 func (s *Sched) Drain() {
@@ -173,7 +213,24 @@ func (s *Sched) RunAll() {
 			s.wg.Wait()
 			break
 		}
-		i := s.r.T.Intn(len(s.parked))
+		opts := len(s.parked)
+		if s.sleepers > 0 {
+			opts++
+		}
+		i := s.r.T.Intn(opts)
+		if i == len(s.parked) {
+			// let simulated time pass until a sleeper (or a library timer
+			// whose firing makes somebody park) wakes up
+			s.mu.Unlock()
+			s.r.noteSched("clock", "advance")
+			s.r.Logf("sched clock advance (of %d)", opts)
+			select {
+			case <-s.wake:
+			default:
+			}
+			<-s.wake
+			continue
+		}
 		w := s.parked[i]
 		s.parked = append(s.parked[:i], s.parked[i+1:]...)
 		n := len(s.parked) + 1
